@@ -532,8 +532,11 @@ def minimise(cfg, bad):
         trials.append(("opt", "plain"))
     for simpler in ("none", "y", "poisson"):
         trials.append(("unc", simpler))
+    unc_done = False
     for dim, val in trials:
-        if cur[dim] == val:
+        if cur[dim] == val or (dim == "unc" and unc_done):
+            if dim == "unc" and cur[dim] == val:
+                unc_done = True  # already at this (or a simpler) configuration
             continue
         t = dict(cur)
         t[dim] = val
@@ -544,6 +547,8 @@ def minimise(cfg, bad):
         b = _fails(t, obs)
         if b is not None and b["mode"] == curbad["mode"]:
             cur, curbad = t, b
+            if dim == "unc":
+                unc_done = True
     return cur, curbad
 
 
